@@ -6,7 +6,7 @@ from ..core import Clause, Violation
 
 RULE = ("Cases: Hypothesis-drawn feature arrays x [nx x d], y [ny x d] with d in 1..4, nx, ny in 1..200 (small sizes "
         "over-weighted), continuous or small-integer (tie-rich) values, arbitrary row order, K in 1..15, "
-        "distance_upper_bound in {inf, moderate, tight}; 1-feature inputs also passed as vectors; (sequence) two calls through the same array objects with the contents replaced in place in between. Oracle "
+        "distance_upper_bound in {inf, moderate, tight, exactly zero}; 1-feature inputs also passed as vectors; (sequence) two calls through the same array objects with the contents replaced in place in between. Oracle "
         "(validity predicate, many pairings are acceptable): equal-length index lists, indices in range, no x row "
         "twice, no y row twice, every pair within the bound and within the K-th nearest-neighbour distance of its "
         "x row (ties allowed, 1e-9). Non-trivial: >=2 x rows have the same nearest y row.")
@@ -32,7 +32,7 @@ def case(draw):
         x = c[rng.integers(0, 3, nx)] + 0.1 * rng.standard_normal((nx, d))
         y = c[rng.integers(0, 3, ny)] + 0.1 * rng.standard_normal((ny, d))
     K = draw(st.one_of(st.integers(1, 15), st.sampled_from([1, 2, 15])))
-    bound = draw(st.sampled_from(['inf', 'moderate', 'tight']))
+    bound = draw(st.sampled_from(['inf', 'moderate', 'tight', 'inf', 'moderate', 'tight', 'zero']))
     return {'x': x, 'y': y, 'K': K, 'bound': bound, 'vector': draw(st.booleans()) and d == 1,
             'layout': draw(st.sampled_from(['C', 'C', 'F', 'strided', 'readonly'])), 'dtype': draw(st.sampled_from(['f8', 'f8', 'f4']))}
 
@@ -48,6 +48,8 @@ def oracle(case, rec):
     D = np.sqrt(((x[:, None, :] - y[None, :, :]) ** 2).sum(axis=2))
     if case['bound'] == 'inf':
         bound = np.inf
+    elif case['bound'] == 'zero':
+        bound = [0, 0.0, np.float64(0)][K % 3]          # nothing (except exact duplicates) is within a zero bound
     elif case['bound'] == 'moderate':
         bound = float(np.median(D)) if D.size else 1.0
     else:
